@@ -2,7 +2,7 @@ from _common import COMMON_NOTE
 
 META = {
  'title': 'ULA memory and I/O contention delays match the 48K/128K contention model',
- 'lean_modules': ['ZxVerif.Props.C04', 'ZxVerif.Props.C04X', 'ZxVerif.Props.C04Sys'],
+ 'lean_modules': ['ZxVerif.Props.C04', 'ZxVerif.Props.C04X', 'ZxVerif.Props.C04Sys', 'ZxVerif.Props.C03Sys'],
  'extract': ['Machine', 'Contended'],
  'modelled_code': ['rustzx-core/src/zx/machine/mod.rs (contention_clocks, port_is_contended, bank_is_contended, SPECS_48K/128K)',
                    'rustzx-core/src/zx/machine/specs.rs (derived line/frame lengths)',
@@ -15,5 +15,5 @@ META = {
  'design_ref': 'DESIGN.md section 8, C04',
  'technique': 'Lean 4 proof: closed-form delay = property formula for all T (omega), I/O patterns and fold decomposition by invariants; tied to the code by differential timing of bus cycles and whole instructions',
  'level_text': 'Whole-program theorem on the composed machine (Z80 reference on the Spectrum bus, by the bounded closure theorem over every instruction): for every program, run length and paging history the emulated time that passes equals the property\'s time for the bus operations the CPU issued (delay table by (T-T0) mod 8 inside the picture lines, contended ranges/banks as paged when each operation starts, the four port patterns) = plain clocks + the prescribed delays. Theorems in Lean 4 for every frame T-state and both machines: the transcribed contention function equals the property\'s formula, the wait releases the CPU in a free slot, the four port patterns, uncontended cycles are never delayed, and elapsed time of any bus-cycle sequence = plain clocks + delays at contended cycle starts. The model is tied to the Rust code on every run by timing real bus cycles, port cycles and all 1792 instruction encodings inside the real Emulator against model and spec.',
- 'level_note': COMMON_NOTE + ' bv_decide: none in Props/C04 itself; Props/C04Sys uses one bv_decide fact (a port with A15=A1=0 lies below 0x8000) and inherits the bit-field facts of C06 (bank index below 8, ROM bit). The whole-program theorem is about the Lean Z80 reference on the Lean Spectrum bus; both are tied to the real Emulator by the lock-step layer.',
+ 'level_note': COMMON_NOTE + ' bv_decide: none in Props/C04 itself; Props/C04Sys uses one bv_decide fact (a port with A15=A1=0 lies below 0x8000) and inherits the bit-field facts of C06 (bank index below 8, ROM bit). The whole-program theorem is about the Lean Z80 reference on the Lean Spectrum bus; both are tied to the real Emulator by the lock-step layer. Props/C03Sys gives the per-instruction form on that machine: for every instruction of every page and for interrupt entry, at any frame T-state in any state satisfying the invariant, elapsed time = documented T-states + the prescribed delays over exactly the documented cycles of that instruction.',
 }
